@@ -27,7 +27,7 @@ ASSUMPTIONS = [
     "contents: tag values / measurements from {'a', '', 'x,y', 'q\"q', \"s'q\", 'l\\nm', 'r\\rs', 'c\\r\\nd', 'é', ' sp ', ';'}; field values in "
     "{1, -0.5, None, 0}; times 0.5 s apart; other strings are outside the claim (C05 decides the row codec for all strings)",
     "histories: {ins,ins}, {ins,get(early stop),ins}, {ins,ins,update}, {ins,ins,remove}, {ins,ins,remove_all,ins}, "
-    "{ins,contains,insert_multiple}, {ins,ins,update(no change),remove(no match)}",
+    "{ins,contains,insert_multiple}, {ins,ins,update(no change),remove(no match)}, {ins,ins,ins,update,remove,update} (two rewrites)",
     "with flush_on_insert=True the file is decoded after EVERY call; with False after close() only (as the property states)",
     "every variable is a finite selector: exhaustion == enumeration",
 ]
@@ -45,6 +45,8 @@ SKELETONS = {
     "remove_all": ["ins", "ins", "rmall", "ins"],
     "insert_multiple": ["ins", "contains", "insm"],
     "noops": ["ins", "ins", "upd_nochange", "rm_nomatch"],
+    # the row with the symbolic content survives two successive rewrites of the file
+    "two_rewrites": ["ins", "ins", "ins", "upd", "rm_last", "upd_again"],
 }
 
 
@@ -109,6 +111,10 @@ def h_file(params):
                     apply_op(h, ("upd", ("tag", "j", "==", "x"), {"fields": {"f": 2}}))
                 elif op == "rm":
                     apply_op(h, ("rm", ("tag", "j", "==", None)))
+                elif op == "rm_last":
+                    apply_op(h, ("rm", ("field", "f", "==", 0)))
+                elif op == "upd_again":
+                    apply_op(h, ("upd", ("tag", "j", "==", "x"), {"fields": {"g": 6}}))
                 elif op == "rm_nomatch":
                     apply_op(h, ("rm", ("tag", "j", "==", "zz")))
                 elif op == "rmall":
